@@ -63,6 +63,11 @@ cfg("C12_quick", 2, 2, 2, 2, ["CreateGroup", "CreateObject", "AddData", "AddToGr
                               "Close", "Open"], 5, names=("a", "b"), vals=(1, 2))
 cfg("C12_thorough", 3, 2, 4, 2, ["CreateGroup", "CreateObject", "AddData", "AddToGroup", "Copy", "SetVal", "Rename",
                                  "SetFlag", "Move", "Close", "Open"], 7, names=("a", "b"), vals=(1, 2))
+# --- random simulation with larger constants (thorough tiers): long behaviours, more entities
+cfg("Sim_all", 3, 2, 4, 2, minus("CallClosed"), 60, names=("a", "b"), vals=(1, 2))
+cfg("Sim_remove", 3, 2, 4, 2, ["CreateGroup", "CreateObject", "AddData", "AddToGroup", "RemoveFromGroup", "SetFlag", "Move",
+                               "RemoveViaWorkspace", "RemoveViaParent", "RemovePG", "Close", "Open", "Copy", "CreateWithUid"] + GC,
+    60, names=("a", "b"), vals=(1, 2))
 # --- Ideal design: no deviation, every invariant incl. NoOrphansWhenClosed must hold (no export)
 cfg("Ideal_quick", 1, 1, 2, 1, minus("CallClosed"), 6, devs=(), export=False, extra_inv=("NoOrphansWhenClosed",))
 cfg("Ideal_thorough", 2, 1, 2, 2, minus("CallClosed"), 7, devs=(), export=False, extra_inv=("NoOrphansWhenClosed",))
